@@ -221,7 +221,7 @@ def vectorised_equals_per_unit(ctx, op, shape):
 
 
 @rcontract(P, "isometries_from_homogeneous_points", instances=[dict(op="origin_to", shape=(2,))],
-           thorough=[dict(op="origin_to", shape=(3,)), dict(op="origin_to", shape=(1, 2))], timeout=150.0, max_paths=80, bounded_n=(6, 30),
+           thorough=[dict(op="origin_to", shape=(3,)), dict(op="origin_to", shape=(1, 2)), dict(op="tangent_origin_to", shape=(2,))], timeout=150.0, max_paths=80, bounded_n=(6, 30),
            functions=[HY + "Point.origin_to", U + "find_isometry", U + "indefinite_orthogonalize", U + "make_orientation_preserving", U + "normalize"])
 def isometries_from_homogeneous_points(ctx, op, shape):
     """origin_to on a composite given by arbitrary timelike homogeneous representatives (either sheet, any scale, mixed
@@ -235,6 +235,16 @@ def isometries_from_homogeneous_points(ctx, op, shape):
         return np.concatenate([t, sp], axis=-1) * r.uniform(0.5, 2, shape + (1,))
     x = ctx.reals('x', shape + (n + 1,), samp)
     ctx.assume(spec.mink(x, x), '<', 0)
+    if op == "tangent_origin_to":
+        v = ctx.reals('v', shape + (n + 1,))
+        qx, bxv, qv = spec.mink(x, x), spec.mink(x, v), spec.mink(v, v)
+        ctx.assume(qv * qx - bxv * bxv, '<', 0)       # the component of v tangent at x does not vanish
+        f = lambda xx, vv: h.TangentVector(h.Point(np.array(xx, copy=True)), np.array(vv, copy=True)).origin_to().proj_data
+        whole = f(x, v)
+        ctx.ensure_true('shape', np.shape(whole) == shape + (n + 1, n + 1), f"{np.shape(whole)}")
+        for idx in np.ndindex(*shape):
+            ctx.ensure_eq(f'unit{idx}', np.asarray(whole)[idx], f(x[idx], v[idx]), tol=1e-6)
+        return
     whole = h.Point(np.array(x, copy=True)).origin_to().proj_data
     ctx.ensure_true('shape', np.shape(whole) == shape + (n + 1, n + 1), f"{np.shape(whole)}")
     for idx in np.ndindex(*shape):
@@ -270,6 +280,26 @@ def sampling(tier, rng, rep):
                 if not np.all(np.abs(R.proj_data[idx] - u.proj_data) <= 1e-9) or not np.all(np.abs(R.aux_data[idx] - u.aux_data) <= 1e-9):
                     rep.fail("pairwise_entries", f"index {idx}", inp)
             rep.case(key=(t, mode), nontrivial=(len(outer) >= 2 or 1 in outer), sample=inp if t == 0 else None)
+        # tangent vectors whose basepoints are arbitrary homogeneous representatives (mixed sheets within one composite):
+        # origin_to / isometry_to / point_along unit by unit
+        shpt = [(2,), (3,), (2, 2)][t % 3]
+        sp_ = rng.uniform(-1, 1, shpt + (n,)) / np.sqrt(n)
+        xt = np.concatenate([rng.uniform(1.2, 3, shpt + (1,)) * rng.choice([-1.0, 1.0], size=shpt + (1,)), sp_], axis=-1) * rng.uniform(0.5, 2, shpt + (1,))
+        vt = rng.normal(size=shpt + (n + 1,))
+        inpt = {"basepoints": xt.tolist(), "vectors": vt.tolist()}
+
+        def tang():
+            TV = h.TangentVector(h.Point(xt.copy()), vt.copy())
+            Mw = TV.origin_to().proj_data
+            pa = TV.normalized().point_along(0.7).coords("klein")
+            for idx in np.ndindex(*shpt):
+                U = h.TangentVector(h.Point(xt[idx].copy()), vt[idx].copy())
+                if not np.all(np.abs(Mw[idx] - U.origin_to().proj_data) <= 1e-7 * (1 + np.max(np.abs(Mw[idx])))):
+                    rep.fail("tangent_origin_to_per_unit", f"unit {idx}", inpt); return
+                if not np.all(np.abs(pa[idx] - U.normalized().point_along(0.7).coords("klein")) <= 1e-7):
+                    rep.fail("point_along_per_unit", f"unit {idx}", inpt); return
+        rep.attempt("tangent_runs", inpt, tang)
+        rep.case(key=(t, "tangent"), nontrivial=True)
         # flattening / reshaping / indexing do not depend on the memory layout of the array the object was built from
         # (C-contiguous, Fortran-contiguous, a transposed view, a strided slice)
         shp2 = tuple(int(x) for x in rng.integers(2, 4, size=2 + t % 2))
